@@ -70,7 +70,10 @@ package ggql
 //@ axiom conformsInDef_booleanScalar(v interface{}, t Type): is(t, *booleanScalar) ==> (conformsIn(v, t) <==> (v == nil || (is(v, bool))))
 //@ axiom conformsOutDef_booleanScalar(v interface{}, t Type): is(t, *booleanScalar) ==> (conformsOut(v, t) <==> (v == nil || (is(v, bool))))
 //@ axiom conformsInDef_timeScalar(v interface{}, t Type): is(t, *timeScalar) ==> (conformsIn(v, t) <==> (v == nil || (is(v, time.Time))))
-//@ axiom conformsOutDef_timeScalar(v interface{}, t Type): is(t, *timeScalar) ==> (conformsOut(v, t) <==> (v == nil || (is(v, string))))
+//@ -- a Time leaves as a string over the RFC 3339 alphabet (digits - + . : T Z): what time.Format produces for the RFC 3339
+//@ -- layouts; the grammar of the timestamp itself is package time's business
+//@ spec rfc3339Chars(s string) bool = forall i int {s[i]} :: 0 <= i && i < len(s) ==> s[i] == 45 || s[i] == 43 || s[i] == 46 || s[i] == 58 || s[i] == 84 || s[i] == 90 || (48 <= s[i] && s[i] <= 57)
+//@ axiom conformsOutDef_timeScalar(v interface{}, t Type): is(t, *timeScalar) ==> (conformsOut(v, t) <==> (v == nil || (is(v, string) && rfc3339Chars(as(v, string)))))
 
 //@ func (*intScalar).CoerceIn
 //@   props C04
@@ -514,7 +517,7 @@ package ggql
 //@ eleminv []*DirectiveUse: v != nil
 //@ eleminv []*ArgValue: v != nil
 //@ eleminv []*VarDef: v != nil
-//@ fieldinv DirectiveUse.Directive: v != nil
+//@ fieldinv DirectiveUse.Directive: v != nil && dirName(v.Name())
 //@ fieldinv FragRef.Fragment: v != nil
 //@ fieldinv VarDef.Type: v != nil
 //@ fieldinv Root.uuSchemaType: v != nil
@@ -761,17 +764,81 @@ package ggql
 //@   ensures[valid] res != nil ==> ptrval(res) != 0
 //@   assigns nothing
 
-//@ func (*Input).CoerceIn
-//@   abstract (input-object coercion is reflect-dominated; not yet under contract)
-//@   results res, err
-//@   ensures aserr(err) != nil ==> fresh(aserr(err))
+//@ func (*Input).reflectSet
+//@   props C03 C04
+//@   check panic {C03}
+//@   requires t != nil
+//@   ensures[plain-error] aserr(err) == nil
+//@   assigns fresh
+//@   loop 0: invariant[no-error-yet] err == nil
+
+//@ func (*Input).reflectSetKey
+//@   props C03 C04
+//@   check panic {C03}
+//@   requires t != nil
+//@   ensures[plain-error] aserr(err) == nil
 //@   assigns fresh
 
+//@ func inErr
+//@   props C03 C04
+//@   check panic {C03}
+//@   requires err != nil
+//@   ensures[has-path-error] res != nil && aserr(res) != nil
+//@   ensures[reused] old(aserr(err)) != nil ==> aserr(res) == old(aserr(err))
+//@   ensures[new] old(aserr(err)) == nil ==> fresh(aserr(res))
+//@   assigns fresh, H_Error.Path
+
+//@ -- input objects (C04): only declared fields, required fields present, defaults filled in, non-null positions not null.
+//@ -- Stated for the plain-map representation (no Go struct registered for the input type: t.meta == nil); the registered-struct
+//@ -- branch goes through reflectSet and is only covered by the panic checks.
+//@ spec inFld(t *Input, k string) *InputField = t.fields.dict[k]
+//@ spec asMap(v interface{}) map[string]interface{} = as(v, map[string]interface{})
+//@ spec isColl(v interface{}) bool = is(v, map[string]interface{}) || is(v, []interface{})
+//@ -- a copy that shares no list or object with the original (so coercing the copy in place cannot reach the schema)
+//@ func dupValue
+//@   props C03 C04
+//@   check panic {C03}
+//@   ensures[object-copied] is(v, map[string]interface{}) ==> is(res, map[string]interface{}) && asMap(res) != nil && fresh(asMap(res))
+//@   ensures[list-copied] is(v, []interface{}) ==> is(res, []interface{}) && fresh(as(res, []interface{}))
+//@   ensures[scalar-kept] !isColl(v) ==> res == v
+//@   decreases valH(v)
+//@   use valHMap(asMap(v))
+//@   assigns fresh
+//@   loop 1: use valHList(as(v, []interface{}), rangeindex+1)
+//@ func (*Input).CoerceIn
+//@   props C04
+//@   check panic {C03}
+//@   requires t != nil
+//@   requires[json-shaped] is(v, map[string]interface{}) ==> asMap(v) != nil
+//@   results res, err
+//@   ensures[undeclared-field] is(v, map[string]interface{}) && (exists k string :: old(has(asMap(v), k)) && inFld(t, k) == nil) ==> err != nil
+//@   ensures[required-field] is(v, map[string]interface{}) && t.meta == nil && (exists k string :: has(t.fields.dict, k) && inFld(t, k).Default == nil && is(inFld(t, k).Type, *NonNull) && old(asMap(v)[k]) == nil) ==> err != nil
+//@   ensures[default-filled] is(v, map[string]interface{}) && t.meta == nil && err == nil ==> (forall k string {asMap(v)[k]} :: has(t.fields.dict, k) && old(asMap(v)[k]) == nil && inFld(t, k).Default != nil ==> asMap(v)[k] != nil && (!isColl(inFld(t, k).Default) ==> asMap(v)[k] == inFld(t, k).Default) && (is(inFld(t, k).Default, map[string]interface{}) ==> is(asMap(v)[k], map[string]interface{})) && (is(inFld(t, k).Default, []interface{}) ==> is(asMap(v)[k], []interface{})))
+//@   ensures[default-not-shared]{C03} is(v, map[string]interface{}) && t.meta == nil && err == nil ==> (forall k string {asMap(v)[k]} :: has(t.fields.dict, k) && old(asMap(v)[k]) == nil && isColl(inFld(t, k).Default) ==> asMap(v)[k] != inFld(t, k).Default)
+//@   ensures[non-null-present] is(v, map[string]interface{}) && t.meta == nil && err == nil ==> (forall k string {asMap(v)[k]} :: has(t.fields.dict, k) && is(inFld(t, k).Type, *NonNull) ==> asMap(v)[k] != nil)
+//@   ensures[coerced] is(v, map[string]interface{}) && t.meta == nil && err == nil ==> (forall k string {asMap(v)[k]} :: has(t.fields.dict, k) && old(asMap(v)[k]) != nil ==> conformsIn(asMap(v)[k], inFld(t, k).Type))
+//@   ensures[same-map] is(v, map[string]interface{}) && t.meta == nil && err == nil ==> res == v
+//@   ensures[err-fresh] aserr(err) != nil ==> fresh(aserr(err))
+//@   assigns fresh, v
+//@   loop 0: invariant[declared] forall k string {seen(0, k)} :: seen(0, k) ==> inFld(t, k) != nil
+//@           invariant[domain] forall k string {indomain(0, k)} :: indomain(0, k) <==> old(has(asMap(v), k))
+//@           invariant[unchanged] forall k string {asMap(v)[k]} :: asMap(v)[k] == old(asMap(v)[k])
+//@   loop 1: invariant[domain] forall k string {indomain(1, k)} :: indomain(1, k) <==> has(t.fields.dict, k)
+//@           invariant[done] t.meta == nil ==> (forall k string {seen(1, k)} :: seen(1, k) ==> (old(asMap(v)[k]) == nil && inFld(t, k).Default != nil ==> asMap(v)[k] != nil && (!isColl(inFld(t, k).Default) ==> asMap(v)[k] == inFld(t, k).Default) && (isColl(inFld(t, k).Default) ==> asMap(v)[k] != inFld(t, k).Default) && (is(inFld(t, k).Default, map[string]interface{}) ==> is(asMap(v)[k], map[string]interface{})) && (is(inFld(t, k).Default, []interface{}) ==> is(asMap(v)[k], []interface{}))) && (is(inFld(t, k).Type, *NonNull) ==> asMap(v)[k] != nil) && (old(asMap(v)[k]) != nil ==> conformsIn(asMap(v)[k], inFld(t, k).Type)) && !(inFld(t, k).Default == nil && is(inFld(t, k).Type, *NonNull) && old(asMap(v)[k]) == nil))
+//@           invariant[todo] forall k string {seen(1, k)} :: !seen(1, k) ==> asMap(v)[k] == old(asMap(v)[k]) && (has(asMap(v), k) <==> old(has(asMap(v), k)))
+//@           invariant[fields-kept] forall k string {inFld(t, k)} :: inFld(t, k) == old(inFld(t, k))
+
+//@ -- JSON-shaped values (what the parsers and encoding/json produce) never hold a typed-nil map (trusted for the
+//@ -- members of lists and objects and for parsed argument values; a precondition for the value handed in)
+//@ eleminv map[string]interface{}: is(v, map[string]interface{}) ==> as(v, map[string]interface{}) != nil
+//@ eleminv []interface{}: is(v, map[string]interface{}) ==> as(v, map[string]interface{}) != nil
+//@ fieldinv ArgValue.Value: is(v, map[string]interface{}) ==> as(v, map[string]interface{}) != nil
 //@ func (*Root).replaceArgVars
 //@   props C04
 //@   check panic {C03}
 //@   check frame {C11}
 //@   requires root != nil
+//@   requires[json-shaped] is(v, map[string]interface{}) ==> as(v, map[string]interface{}) != nil
 //@   requires at != nil ==> ptrval(at) != 0
 //@   ensures[errs-fresh]{C06} errsFresh(ea)
 //@   ensures[no-resolver]{C04} #res == old(#res)
@@ -834,6 +901,7 @@ package ggql
 
 //@ -- (*Object).metaCheck: contract in verif_contracts_c12.go
 
+//@ spec isLeafT(x Type) bool = x != nil && !is(x, *List) && !is(x, *Object) && !is(x, *Schema) && !is(x, *Interface) && !is(x, *uuSchema) && !is(x, *NonNull) && !is(x, *Union) && is(x, OutCoercer)
 //@ func (*Root).resolve
 //@   requires[binding-locks-free]{C12} onlyRegistryLock(root)
 //@   decreases{C03} depth
@@ -848,6 +916,7 @@ package ggql
 //@   ensures[errs-fresh]{C06} errsFresh(ea)
 //@   ensures[null-depth]{C01} (depth <= 0 || isnilv(obj)) ==> result == obj && len(ea) == 0 && #res == old(#res)
 //@   ensures[leaf-conforms]{C05} depth > 0 && !isnilv(obj) && !is(t, *List) && !is(t, *Object) && !is(t, *Schema) && !is(t, *Interface) && !is(t, *uuSchema) && !is(t, *NonNull) && !is(t, *Union) && is(t, OutCoercer) && len(ea) == 0 ==> conformsOut(result, t)
+//@   ensures[nonnull-leaf-conforms]{C05} depth > 0 && !isnilv(obj) && is(t, *NonNull) && as(t, *NonNull) != nil && isLeafT(as(t, *NonNull).Base) && len(ea) == 0 ==> conformsOut(result, as(t, *NonNull).Base)
 //@   ensures[leaf-error-null]{C05} depth > 0 && !isnilv(obj) && !is(t, *List) && !is(t, *Object) && !is(t, *Schema) && !is(t, *Interface) && !is(t, *uuSchema) && !is(t, *NonNull) && !is(t, *Union) && len(ea) > 0 ==> result == nil
 //@   assigns fresh, H_Field.ConType, H_Object.meta, H_FieldDef.goField, H_FieldDef.method, H_FieldDef.args, held, #res
 //@   ensures[locks-balanced]{C12,C20} held == old(held)
@@ -899,7 +968,6 @@ package ggql
 //@           decreases cnt - i
 
 //@ -- a leaf type: what resolve() hands to the type's own output coercion
-//@ spec isLeafT(x Type) bool = x != nil && !is(x, *List) && !is(x, *Object) && !is(x, *Schema) && !is(x, *Interface) && !is(x, *uuSchema) && !is(x, *NonNull) && !is(x, *Union) && is(x, OutCoercer)
 //@ func (*Root).resolveField
 //@   requires[object-present] obj != nil
 //@   requires[binding-locks-free]{C12} onlyRegistryLock(root)
